@@ -27,6 +27,17 @@ type Obligation struct {
 	Goal  string
 	Note  string
 	Extra string // extra prelude text (axioms local to this obligation)
+	Witness []WitnessVar // terms whose model values make a replayable input
+	Replay  string       // replay class: orderlaw, ...
+	Meta    map[string]string
+}
+
+// WitnessVar names a term of the obligation whose value is read back from a model.
+type WitnessVar struct {
+	Name string // e.g. x.Path, x.Access
+	Kind string // int, bool, str, strs
+	Term string // scalar term, or array term for strs
+	Len  string // length term for strs
 }
 
 type Outcome struct {
